@@ -122,8 +122,8 @@ CHECKS = {
 
  "C21": dict(
    text="END TO END (C21_closed_load, Properties/C21.v): a knowledge base of closed rules (the class of C19) printed rule by rule with "
-        "Display and written to a file under any legal layout that leaves the spacing of the texts unchanged - line breaks after "
-        "`, ` `; ` ` = ` ` :- `, any indentation, blank lines, # % // comments - is loaded by load_kb_from_file with the REAL parse_rule as "
+        "Display and written to a file under any legal layout whose line breaks stand right after `,` `;` `=` or the neck `:-` "
+        "(C21_closed_load_layout: a condition checked by eye; any indentation, blank lines, # % // comments) - is loaded by load_kb_from_file with the REAL parse_rule as "
         "exactly that knowledge base (add_rules over the same rules, no error); a break that changes the spacing can change the rule "
         "(`p(-`/`5).` loads the atom `- 5`: compiled witness). Machine-checked theorems about the model of src/rule_reader.rs (after six repairs; Properties/C21base.v): for every list of rule "
         "texts that each contain exactly one rule end - a period outside ( ) [ ] and quotes that is not a decimal point "
